@@ -153,7 +153,12 @@ def oracle(raw, users):
     fails = []
     src, before, after = raw["src"], raw["before"], raw["after"]
     if raw["rc"] != 0 or raw["nerr"]:
-        fails.append({"why": "the run failed (exit %s, %d errors): %s" % (raw["rc"], raw["nerr"], raw["stderr"][-200:]), "klass": None})
+        # a failure whose every error path is a literal <f>.sy.tmp next to a planned <f> (or that <f> itself) is the listed class
+        eps = [p for p in raw.get("errpaths", []) if p]
+        def lit(p):
+            return (p.endswith(".sy.tmp") and p[:-7] in src) or (p + ".sy.tmp") in src or (p + ".sy.tmp") in before
+        fails.append({"why": "the run failed (exit %s, %d errors): %s" % (raw["rc"], raw["nerr"], raw["stderr"][-200:]),
+                      "klass": "literal-temp-name" if eps and all(lit(p) for p in eps) else None})
     for rel, s in src.items():
         a = after.get(rel)
         if s["kind"] != "f":
